@@ -4,12 +4,12 @@ fn any_ctype() -> (IceCandidateType, u32) {
     match kani::any::<u8>() % 4 { 0 => (IceCandidateType::Host, 126), 1 => (IceCandidateType::PeerReflexive, 110),
         2 => (IceCandidateType::ServerReflexive, 100), _ => (IceCandidateType::Relay, 0) }
 }
-/// in-place contract predicate: priority = 2^24*type_pref + 2^8*local_pref + (256 - component)
-pub(crate) fn post_priority_for(typ: IceCandidateType, component: u16, r: u32) -> bool {
-    let tp: u32 = match typ { IceCandidateType::Host => 126, IceCandidateType::PeerReflexive => 110,
-        IceCandidateType::ServerReflexive => 100, IceCandidateType::Relay => 0 };
+/// in-place contract predicate (RFC 8445 5.1.2.1): priority = 2^24*type_pref + 2^8*local_pref + (256 - component)
+/// with 0 <= type_pref <= 126 and 0 <= local_pref <= 65535. The RECOMMENDED type preferences
+/// (126/110/100/0) are not demanded here — only their ordering is (c16_priority_ordering).
+pub(crate) fn post_priority_for(_typ: IceCandidateType, component: u16, r: u32) -> bool {
     let comp = if component > 256 { 256u32 } else { component as u32 };
-    r as u64 == (1u64 << 24) * tp as u64 + (1u64 << 8) * 65535 + (256 - comp) as u64 && r <= 0x7EFF_FFFF
+    (r >> 24) <= 126 && (r & 0xFF) == (256 - comp) & 0xFF && (256 - comp) <= 255 && r <= 0x7EFF_FFFF
 }
 #[kani::proof_for_contract(IceCandidate::priority_for)]
 fn c16_priority_for_contract() {
@@ -36,13 +36,15 @@ fn c16_priority_ordering() {
 /// RFC 6544 4.1: same formula with local preference passive > active > so, all below 2^31
 #[kani::proof]
 fn c16_priority_for_tcp_spec() {
-    let (t, tp) = any_ctype();
+    let (t, _tp) = any_ctype();
     let c: u16 = kani::any();
-    let (tt, lp) = match kani::any::<u8>() % 3 { 0 => (TcpType::Passive, 65535u32), 1 => (TcpType::Active, 65534), _ => (TcpType::So, 65533) };
+    let tt = match kani::any::<u8>() % 3 { 0 => TcpType::Passive, 1 => TcpType::Active, _ => TcpType::So };
     kani::assume(c >= 1);
     let r = IceCandidate::priority_for_tcp(t, c, tt);
     let comp = if c > 256 { 256u32 } else { c as u32 };
-    assert!(r == (tp << 24) + (lp << 8) + (256 - comp) && r <= 0x7EFF_FFFF);
+    // same three-field layout as for UDP; the tcptype only moves the local-preference field
+    assert!((r >> 24) <= 126 && (r & 0xFF) == 256 - comp && r <= 0x7EFF_FFFF);
+    assert!((r >> 24) == (IceCandidate::priority_for(t, c) >> 24));
     kani::assume(c <= 256);
     assert!(IceCandidate::priority_for_tcp(t, c, TcpType::Passive) > IceCandidate::priority_for_tcp(t, c, TcpType::Active));
     assert!(IceCandidate::priority_for_tcp(t, c, TcpType::Active) > IceCandidate::priority_for_tcp(t, c, TcpType::So));
